@@ -108,7 +108,7 @@ def line(req):
         return real_r7.chain_line(req)
     if op == 'cacheid':
         return 'cacheid identity ' + (','.join(req[2]) or '_')
-    if op in ('readsig', 'stext', 'pieces', 'resplit'):
+    if op in ('readsig', 'stext', 'pieces', 'resplit', 'readsigtext'):
         from . import real_r8
         return real_r8.line(req)
     if op == 'stream-timeout':
@@ -188,7 +188,7 @@ def parse_model(req, ml):
         return real_r7.parse_chain(ml)
     if op == 'cacheid':
         return ('ok', toks[0])
-    if op in ('readsig', 'stext', 'pieces', 'resplit'):
+    if op in ('readsig', 'stext', 'pieces', 'resplit', 'readsigtext'):
         from . import real_r8
         return real_r8.parse_model(req, ml)
     return core.parse_model_answer(ml)
